@@ -191,6 +191,11 @@ def run_cases(R, mp, triples, thorough, light=False):
         if im[0] == "ok" and im[1] == 0:
             bs = bytes.fromhex(im[2])
             x = cc.expand(td)
+            if len(bs) > 20000 and td[0] != "elem":
+                # the model's stream reads are linear in the remaining buffer: a very long buffer read
+                # element by element is quadratic there; long single reads (strings) are kept
+                R.count("skipped", "decode of a composite encoding > 20000 bytes")
+                continue
             rest = b"" if cc.x_doc_greedy(x) else bytes(rng.randrange(256) for _ in range(rng.choice([0, 1, 2, 5])))
             dec.append(("dec", td, bs + rest))
             if not light and (len(bs) <= 64 or rng.random() < 0.2):
